@@ -1,5 +1,5 @@
 (* C12 — no missing piece is ever withheld by a stale reservation. *)
-From Rdest Require Import Base Consts Wire Manager MgrProofs.
+From Rdest Require Import Base Consts Wire Manager MgrProofs Handler HandlerProofs.
 Open Scope N_scope.
 
 (* a piece once owned stays owned, whatever command the manager handles *)
@@ -15,10 +15,32 @@ Proof.
   intros m p i H. destruct (pick_ok_spec m p (Some i) H) as (A & (s & B & C & _) & _). split; [exact A|]. exists s. tauto.
 Qed.
 
-(* the reservation invariant over all event histories (Reserved => some connected peer that is not choking us
-   has actually been asked) needs the composition with the connection tasks; it is decided by the correspondence
-   oracle (reserved_backed / asked_ok on the real Session's states after every command); no Coq proof yet.
-   The three defects it found are repaired (known_findings.json). *)
+(* The reservation invariant.  InvM m: a piece is marked Reserved(n) only with 1 <= n <= the number of connected peers
+   that are not choking us and are assigned it.  It holds in every state reachable by ANY sequence of peer commands the
+   connection tasks can produce (repeated and out-of-order ones included, any interleaving over any number of peers,
+   disconnects anywhere), for every answer of the chooser. *)
+Theorem C12_invariant : forall m, mreach m -> InvM m.
+Proof. intros. apply reservation_invariant_reachable; [reflexivity | assumption]. Qed.
+
+Theorem C12_invariant_step : forall m c pick m' r bc sp,
+  InvM m -> producible m c -> mstep m c pick = Ok (m', r, bc, sp) -> InvM m'.
+Proof. intros. eapply reservation_invariant; eauto. Qed.
+
+(* so the piece becomes assignable again as soon as the last such peer chokes us, is re-assigned, finishes or goes
+   away: with no peer left that is assigned it and not choking us, it cannot be Reserved *)
+Corollary C12_released : forall m i n, mreach m -> cnt (m_peers m) i = 0 -> nthN (m_status m) i <> Some (Reserved n).
+Proof. intros m i n R Hc H. pose proof (C12_invariant m R i n H). lia. Qed.
+
+(* `producible` is what the connection task guarantees: it relays an Unchoke only when the peer was choking us *)
+Theorem C12_task_guarantee : forall sha1 cf disk ovf s m r,
+  In (ACmd KUnchoke) (acts_of (hstep sha1 cf disk ovf s (EFrame m) r)) -> m = Unchoke /\ h_choked s = true.
+Proof. intros. eapply unchoke_relayed_only_when_choked; eauto. Qed.
+
+(* and an assignment is asked for at once: C10_assignment (the task writes the first blocks of the piece it was assigned).
+   Not proved in Coq: the composed statement "the task's choke flag equals the manager's for that peer" over all
+   interleavings (both are set by the same frames; the KillReq window after a task's death is not modelled). The
+   correspondence evaluates the stronger "has actually been asked" form on the real Session with the task's piece in the
+   harness (reserved_backed / asked_ok). Three defects were found and repaired (known_findings.json). *)
 Example C12_nonvacuous :
   let p := mkpeer None [true; true] None false true false true false None None in
   let m := mkmgr [Missing; Have] [(1, p)] [] 0 false [4; 2] in
@@ -27,3 +49,7 @@ Proof. vm_compute. split; reflexivity. Qed.
 
 Print Assumptions C12_have_absorbing.
 Print Assumptions C12_asked_advertised_lacked.
+Print Assumptions C12_invariant.
+Print Assumptions C12_invariant_step.
+Print Assumptions C12_released.
+Print Assumptions C12_task_guarantee.
